@@ -262,7 +262,7 @@ def wellcond_kv(rng, p, nint, interval):
 def run(ctx):
     rng = ctx["rng"]
     for i in range(budget(ctx, 30, 400)):
-        label = rng.choice(["fraction", "fraction", "int", "big"])
+        label = ["fraction", "int", "fraction", "big", "int"][i % 5]
         interval = rng.choice([(F(0), F(1)), (F(-1), F(2)), (F(1, 3), F(7, 3))])
         p = rng.randint(1, 3)
         U = wellcond_kv(rng, p, rng.randint(0, 2), interval)
@@ -270,7 +270,7 @@ def run(ctx):
         dim = rng.choice([1, 1, 2])
         if label == "int":
             P = rand_points(rng, n, dim, ints=True)
-            W = rng.choice([None, [F(rng.randint(1, 5)) for _ in range(n)]])
+            W = [F(rng.randint(1, 5)) for _ in range(n)] if i % 2 == 1 else None     # python-int weights every other int case
         elif label == "big":
             P = rand_points(rng, n, dim, big=True)
             W = None
